@@ -427,13 +427,24 @@ func readCap(fn *ssa.Function) (int64, string) {
 		if errEdge == 1 {
 			op = negOp(op)
 		}
+		// the guard must come before the read of the same iteration; if the
+		// byte is read first, one more byte is consumed before the error
+		extra := int64(0)
+		for _, bb := range fn.Blocks {
+			if hasReadByte(bb) && bb != b && !b.Dominates(bb) {
+				extra = 1
+			}
+			if hasReadByte(bb) && bb == b {
+				extra = 1 // read and guard in the same block: the read precedes the branch
+			}
+		}
 		switch op {
 		case token.GTR: // error when num > k: num = 0..k read
-			return k + 1, ""
+			return k + 1 + extra, ""
 		case token.GEQ: // error when num >= k: num = 0..k-1 read
-			return k, ""
+			return k + extra, ""
 		case token.EQL:
-			return k, ""
+			return k + extra, ""
 		default:
 			return 0, "the length guard is not an upper-bound test of the byte counter"
 		}
